@@ -240,13 +240,15 @@ PROPS["C13"] = {
                           "jobs": _enum_jobs([(1, 1, 0), (1, 1, 1), (1, 2, 0), (1, 2, 1), (1, 3, 0), (2, 1, 0), (2, 1, 1)], 400000)},
                          {"kind": "rc", "procs": 4, "cases": 6000, "maxlen": 200},
                          {"kind": "rc", "source": "c13_drains.cc", "noshrink": True, "procs": 4, "cases": 40, "maxlen": 100},
-                         {"kind": "rc", "source": "c13_server_drains.cc", "noshrink": True, "procs": 4, "cases": 30, "maxlen": 100}]},
+                         {"kind": "rc", "source": "c13_server_drains.cc", "noshrink": True, "procs": 4, "cases": 30, "maxlen": 100},
+                         {"kind": "rc", "source": "c13_freerun.cc", "noshrink": True, "procs": 4, "cases": 6, "maxlen": 16, "timeout": 600}]},
     "thorough": {"stages": [{"kind": "replay"},
                             {"kind": "enum", "scope": "all schedules of 1x1..1x3, 2x1, 2x2, 3x1 with 0 and 1 early poll (capped at 3000000 schedules per partition)",
                              "jobs": _enum_jobs([(1, 1, 0), (1, 1, 1), (1, 2, 0), (1, 2, 1), (1, 3, 0), (1, 3, 1), (2, 1, 0), (2, 1, 1), (2, 2, 0), (3, 1, 0)], 3000000)},
                             {"kind": "rc", "procs": 8, "cases": 100000, "maxlen": 300},
                             {"kind": "rc", "source": "c13_drains.cc", "noshrink": True, "procs": 8, "cases": 600, "maxlen": 100},
-                            {"kind": "rc", "source": "c13_server_drains.cc", "noshrink": True, "procs": 8, "cases": 400, "maxlen": 100}]},
+                            {"kind": "rc", "source": "c13_server_drains.cc", "noshrink": True, "procs": 8, "cases": 400, "maxlen": 100},
+                            {"kind": "rc", "source": "c13_freerun.cc", "noshrink": True, "procs": 8, "cases": 60, "maxlen": 16, "timeout": 1500}]},
 }
 
 _C12_CFGS = [(s, r, v) for s in range(4) for r in (0, 1) for v in (0, 1)]
